@@ -57,7 +57,10 @@ def _run_group_batch(group, header, delta, stiff_idx, workdir, schemes=None):
 
     n = len(group)
     ode = gx.load(build_model(group))
-    stiff = [f"s{j}" for j in stiff_idx] + ["not_a_state"]
+    # names that are not states "have no effect" - however many of them there are (more names than the model has
+    # states), whatever they name (a parameter, a rate, the time, a state of another model), repeated or not
+    stiff = [f"s{j}" for j in stiff_idx] + ["not_a_state", "a", "t", "ds0_dt", "ds1_dt"] + [f"foreign_{j}" for j in range(len(group) + 1)] \
+        + [f"s{j}" for j in list(stiff_idx)[:1]]
     schemes = schemes or modelcase.SCHEMES
     mod = modelcase.NumpyMod(ode, modelcase.scheme_order(schemes, str(header) + str(delta) + str(stiff)), delta=float(delta), stiff_states=stiff)
     out = {j: {} for j in range(n)}
@@ -92,7 +95,10 @@ def _run_group(group, header, delta, stiff_idx, backend, workdir, schemes=None):
 
     n = len(group)
     ode = gx.load(build_model(group))
-    stiff = [f"s{j}" for j in stiff_idx] + ["not_a_state"]
+    # names that are not states "have no effect" - however many of them there are (more names than the model has
+    # states), whatever they name (a parameter, a rate, the time, a state of another model), repeated or not
+    stiff = [f"s{j}" for j in stiff_idx] + ["not_a_state", "a", "t", "ds0_dt", "ds1_dt"] + [f"foreign_{j}" for j in range(len(group) + 1)] \
+        + [f"s{j}" for j in list(stiff_idx)[:1]]
     schemes = schemes or modelcase.SCHEMES
     mod = modelcase.make_mod(backend, ode, modelcase.scheme_order(schemes, str(header) + str(delta) + str(stiff)), workdir=workdir, delta=float(delta), stiff_states=stiff)
     out = {j: {} for j in range(n)}
